@@ -65,3 +65,67 @@ func VHMarkupPure() {
 	}
 	vAssert(vResultSame(r1, r2), "a reused parser returns what a fresh parser returns")
 }
+
+// vFamilyLine: the F-th member of a family of structured lines (contents symbolic where it matters):
+// plain text, markers, replacement markers in open and self-closing form, and lines that fail at
+// different points of the scan (before any marker, after a marker was recorded, in a processor, in
+// the attribute builder).
+func vFamilyLine(tag string, f int) string {
+	c := vByte(tag + ".c")
+	vAssume(vAnd(c >= 'a', c <= 'z'))
+	x := string([]byte{c})
+	switch f {
+	case 0:
+		return x + " " + x
+	case 1:
+		return "[a]" + x + "[/a]"
+	case 2:
+		return "[a/] " + x + " [b" // fails after a marker has been recorded
+	case 3:
+		return "[nomarkup]" + x + "[/nomarkup]"
+	case 4:
+		return "[select value=a a=X]" + x + "[/select] t"
+	case 5:
+		return "[w/] [select value=z a=X/]" // fails in a processor, after a marker
+	case 6:
+		return x + " [b trimwhitespace=3/] y" // non-boolean trimwhitespace
+	case 7:
+		return x + ": fine[/a]" // unexpected close marker
+	case 8:
+		return "[a][b]" + x + "[/]"
+	case 9:
+		return "[plural value=1 one=" + x + " other=y][/plural]."
+	case 10:
+		return "[a=1.5 p=true/]" + x
+	}
+	// arbitrary short ASCII line
+	s := vString(tag+".raw", 3)
+	for i := 0; i < 3; i++ {
+		vAssume(s[i] < 0x80)
+	}
+	return s
+}
+
+const vFamilySize = 12
+
+// VHMarkupHistory: real histories. H lines of the family are parsed on one parser value, then a line of
+// the family; the result equals what a fresh parser returns for that line. (Complements VHMarkupPure,
+// whose arbitrary pre-state ranges over the parser's *current* fields only.)
+func VHMarkupHistory() {
+	h := vParam("H", 1)
+	used := LineParser{}
+	for i := 0; i < h; i++ {
+		used.ParseMarkup(vFamilyLine("hist"+vItoa(i), vChoose("hist"+vItoa(i)+".family", vFamilySize)))
+	}
+	line := vFamilyLine("line", vChoose("line.family", vFamilySize))
+	fresh := LineParser{}
+	r1, e1 := used.ParseMarkup(line)
+	r2, e2 := fresh.ParseMarkup(line)
+	vAssert((e1 != nil) == (e2 != nil), "after any history a parser fails exactly when a fresh one does")
+	if e1 != nil || e2 != nil {
+		vReach("error")
+		return
+	}
+	vReach("parsed")
+	vAssert(vResultSame(r1, r2), "after any history a parser returns what a fresh parser returns")
+}
